@@ -343,6 +343,24 @@ def quoteTags (fields : List (List Nat)) (firsts : List (List Nat)) (w : List Na
     ++ (if has (fun f => f.any fun c => c < 32 && c != TAB && c != LF && c != CR || c == 127) then " q-ctrl" else "")
     ++ (if w.contains QUOTE then " w-quoted" else "")
 
+/-- bytes of an ASCII literal -/
+def lit (s : String) : List Nat := s.toList.map (·.toNat)
+
+/-- tags for dictionary words (format keywords, placeholders, number / boolean spellings) in the text columns:
+`kw-ucsc-first` = a first column that begins with `track` / `browser` (a UCSC header keyword tested by prefix would
+swallow the record), `kw-first` = a first column that is or begins with another format keyword, `kw-field` = some
+column is exactly a keyword / placeholder / number spelling -/
+def kwTags (fields : List (List Nat)) (firsts : List (List Nat)) : String :=
+  let pre (p : String) (f : List Nat) : Bool := (lit p).isPrefixOf f
+  let ucsc := firsts.any fun f => pre "track" f || pre "browser" f
+  let first := firsts.any fun f =>
+    ["chrom", "gff-version", "sequence-region", "FASTA", ">", "@", "fileformat", "CHROM", "seqid", "seqname", "ID", "Parent",
+     "gene_id", "header", "comment", "name", "type", "description"].any (pre · f)
+  let whole := fields.any fun f =>
+    ["*", "NA", "nan", "NaN", "inf", "null", "NULL", "None", "true", "false", "0x1", "1e3", "007", "+5", "1.0",
+     "track", "browser", "chrom", "chr", "ID", "Parent", "gene_id", "name", "score", "strand"].any (lit · == f)
+  (if ucsc then " kw-ucsc-first" else "") ++ (if first then " kw-first" else "") ++ (if whole then " kw-field" else "")
+
 /-- real reader on the bytes with comment lines: must agree with the model reader on those bytes -/
 def commentsReason (expC : List Exp) (real : List String) : List String :=
   match matchResults expC real false false with
@@ -396,6 +414,7 @@ def bedVerdict (recs : List BedRec) (comments fault : String) (o : Obs) : String
         ++ (if k = 0 then " k0" else if k ≥ 3 then " k>=3" else " k1-2")
         ++ commentsTag (readBed o.c.1 == readBed o.w)
         ++ quoteTags (recs.flatMap fun r => r.chrom :: r.aux) (recs.map (·.chrom)) o.w
+        ++ kwTags (recs.flatMap fun r => r.chrom :: r.aux) (recs.map (·.chrom))
 
 def gffVerdict (dn : String) (d : Dialect) (recs : List GffRead) (comments fault style : String) (o : Obs) : String :=
   match o.m with
@@ -448,6 +467,8 @@ def gffVerdict (dn : String) (d : Dialect) (recs : List GffRead) (comments fault
         ++ quoteTags (recs.flatMap fun r => [r.seqname, r.source, r.ftype, r.score, r.strand]) (recs.map (·.seqname)) o.w
         ++ (if recs.any (fun r => r.pairs.any fun kv => (kv.1 ++ kv.2).any fun c => c == QUOTE || c == LF || c == CR || c == 92)
             then " q-attr" else "")
+        ++ kwTags (recs.flatMap fun r => [r.seqname, r.source, r.ftype, r.score, r.strand] ++ r.pairs.flatMap fun kv => [kv.1, kv.2])
+            (recs.map (·.seqname))
 
 def verdict (toks : List String) (out : String) : String :=
   match toks with
